@@ -2,6 +2,7 @@ import QuiverModel.Core.Packaging.Codec
 import QuiverModel.Lemmas.Packaging.Canon
 import QuiverModel.Core.Packaging.TreeShake
 import QuiverModel.Core.Packaging.Merge
+import QuiverModel.Theorems.C10Tables
 /-
 qm_c10 — driver for the renaming validator (M-Packaging). Requests:
   (prog A …) / (prog B …)       store a program in slot A / B          → ok <sizes> | bad-prog <why>
@@ -9,6 +10,7 @@ qm_c10 — driver for the renaming validator (M-Packaging). Requests:
                                                                           | reject <where> <why>
   (check-identity e)             `checkRenamingExplain A A e e`          → same (sanity: every program renames to itself)
   (prog C …) + (merge e)         `mergeBytecode C A e` vs slot B = the environment's program after merge_bytecode(A) → equal entry=… validate=… | differs <table> | none
+  (shake-hypotheses e fuel)      hypotheses of treeShake_preserves_behaviour_computed on (A, B) → hyp all=… tables-computed-A=… …
   (shake e)                      `treeShake A e` vs slot B = real tree_shake(A, e)  → equal entry=… validate=… | differs <table> | none
   (inject f V…)                  `injectCaptures A f caps`               → ok g=… fns=… instrs=(…) consts=(…) | none
   (v2i V)                        `v2iA A v`                              → ok instrs=(…) consts=(…) | none
@@ -111,6 +113,12 @@ def c10Step (st : C10State) (req : List Sx) : C10State × String :=
             | none => false
           (st, s!"equal entry={out.entry} validate={v}{why} idempotent={idem} kept-fns={out.marks.fns.length} kept-types={out.marks.types.length} renumbered={renumberStats P out.ren}")
     | _, _, _ => (st, "bad-request")
+  | [.list [.atom "shake-hypotheses", ea, fa]] =>
+    -- the hypotheses of `C10.treeShake_preserves_behaviour_computed` for A (original, real tables) and
+    -- B (shaken as loaded, real tables), decided on every tag in range
+    match st.a, st.b, ea.asNat, fa.asNat with
+    | some P, some R, some e, some fuel => (st, C10.shakeHypotheses fuel P R e)
+    | _, _, _, _ => (st, "bad-request")
   | [.list (.atom "inject" :: f :: caps)] =>
     -- `Program::inject_function_captures(f, caps)` on slot A (model: `injectCaptures`)
     match st.a, f.asNat, mapOpt parseVal caps with
